@@ -35,6 +35,8 @@ class Cfg:
     allow_quantifier_in_or: bool = True
     allow_negated_union: bool = True
     allow_forall_outer_flatten: bool = True
+    allow_predicates_in_or: bool = True
+    unique_domains: bool = False
     flatten_nonempty: bool = False
     allow_subquery_bool_root: bool = True
     min_dom: int = 0
@@ -282,6 +284,37 @@ class _Ctx:
             inner = self.cond_using([outer, loc], loc, 0)
             return {"c": "exists", "v": {"t": outer[0], "i": outer[1]}, "x": inner, "locals": [list(loc)]}
 
+    # ---- the conjunctive / else-if fragment of C02 ---------------------------------------------
+    def cond_c02(self, scope, depth):
+        """atoms, negated atoms, and_ of fragment conditions, or_ only between operands written over the
+        same variable set"""
+        d = self.draw
+        if depth <= 0:
+            return self.atom_c02(scope)
+        k = d(st.sampled_from(["atom", "atom", "and", "or", "or"]))
+        if k == "atom":
+            return self.atom_c02(scope)
+        if k == "and":
+            return {"c": "and", "xs": [self.cond_c02(scope, depth - 1) for _ in range(d(st.integers(2, 3)))]}
+        n_vars = d(st.sampled_from([1, 1, 2])) if len(scope) > 1 else 1
+        sub = d(st.lists(st.sampled_from(scope), min_size=n_vars, max_size=n_vars, unique=True))
+        return {"c": "or", "xs": [self.cond_over_exactly(sub, depth - 1) for _ in range(d(st.integers(2, 3)))]}
+
+    def atom_c02(self, scope):
+        a = self.atom(scope)
+        if self.draw(st.sampled_from([0, 0, 0, 1])):
+            return {"c": "not", "x": a}
+        return a
+
+    def cond_over_exactly(self, sub, depth):
+        from .lang import cond_refs
+
+        c = self.cond_c02(sub, depth)
+        missing = [r for r in sub if tuple(r) not in cond_refs(c)]
+        if missing:
+            c = {"c": "and", "xs": [c] + [self.atom_c02([r]) for r in missing]}
+        return c
+
     def cond_using(self, scope, must, depth, neg=False, noq=False):
         """a condition over `scope` that mentions variable `must`"""
         from .lang import cond_refs
@@ -308,6 +341,9 @@ def _domain(cfg: Cfg, n_objs: int, noise: bool):
         if cfg.allow_empty_domain and cfg.min_dom == 0 and draw(st.sampled_from(range(12))) == 0:
             return [-1] if (noise and draw(st.booleans())) else []
         n = draw(st.sampled_from(sizes))
+        if cfg.unique_domains:
+            pool = list(range(n_objs)) + ([-1] if noise else [])
+            return draw(st.lists(st.sampled_from(pool), min_size=min(n, len(pool)), max_size=min(n, len(pool)), unique=True))
         return [draw(st.sampled_from(range(lo, n_objs))) if noise and draw(st.sampled_from(range(8))) == 0
                 else draw(st.sampled_from(range(0, n_objs))) for _ in range(n)]
 
@@ -361,9 +397,15 @@ def query_ir(draw, cfg: Cfg):
             sub_cond = {"c": "and", "xs": [sub_cond, ctx.atom([("var", i)])]}
         ctx.vars[i]["sub"] = {"quant": draw(st.sampled_from(["an", "an", "the"])), "cond": sub_cond}
     n_conds = draw(st.sampled_from([0, 1, 1, 1, 1, 1, 1, 2, 2, 2, 3]))
-    conds = [ctx.cond(scope, draw(st.integers(0, cfg.depth))) for _ in range(n_conds)]
+    if cfg.fragment == "c02":
+        conds = [ctx.cond_c02(scope, draw(st.integers(0, cfg.depth))) for _ in range(n_conds)]
+    else:
+        conds = [ctx.cond(scope, draw(st.integers(0, cfg.depth))) for _ in range(n_conds)]
     # selection
-    if cfg.force_plain_var_selection or not cfg.allow_derived_selection:
+    if cfg.fragment == "c02":
+        # any selection of plain variables; variables of the query = those selected or used in conditions
+        pool = [{"t": k, "i": i} for (k, i) in scope]
+    elif cfg.force_plain_var_selection or not cfg.allow_derived_selection:
         pool = [{"t": k, "i": i} for (k, i) in scope]
     else:
         pool = [{"t": k, "i": i} for (k, i) in scope]
@@ -399,6 +441,8 @@ def apply_exclusions(cfg: Cfg, exclude) -> Cfg:
         cfg.allow_empty_domain = False
     if "sel_derived" in ex:
         cfg.allow_derived_selection = False
+    if "or_with_predicate" in ex:
+        cfg.allow_predicates_in_or = False
     if "forall_falsy_literal" in ex:
         cfg.forall_truthy_literals = True
     if "forall_with_predicate" in ex:
